@@ -41,7 +41,7 @@ def cases(draw, tier):
                              min_nodes=2, max_subgraphs=2,
                              ops=BW_OPS if bw else CONST_OPS,
                              **({'force_fam': 3, 'fc_plain': True} if bw else {}),
-                             reuse_const=True, share_buffers=True, dedup=True, same_name_sharers=True,
+                             reuse_const=True, share_buffers=True, dedup=True, same_name_sharers=True, const_outputs=True,
                              dim_choices=[2, 4], reuse_odds=1, share_odds=1,
                              # incl. degenerate contents (all-zero / constant
                              # tied weights are what initialisers produce)
@@ -191,5 +191,5 @@ def phases(tier):
   big = tier == 'thorough'
   return [
       {'name': 'sharing', 'kind': 'hyp', 'strategy': lambda: cases(tier),
-       'run': check_case, 'examples': int((120000 if big else 2500) * k)},
+       'run': check_case, 'examples': int((120000 if big else 4000) * k)},
   ]
